@@ -16,7 +16,7 @@ SvcAll == DOMAIN SvcMeta
 
 SpecOf(j) == [type |-> j.type, fam |-> j.fam, pol |-> j.pol, v6first |-> j.v6first, cips |-> j.cips,
               share |-> j.share, ports |-> Range(j.ports), etp |-> j.etp, sel |-> j.sel,
-              reqIPs |-> j.reqIPs, reqPool |-> j.reqPool]
+              reqIPs |-> j.reqIPs, reqPool |-> j.reqPool, dep |-> j.dep, legacy |-> j.legacy, bad |-> j.bad]
 
 Api(o) == [s \in SvcAll |->
              IF s \in DOMAIN o.api
@@ -58,7 +58,7 @@ FamMatch(st, sp) ==
 
 (* is the address set st admissible for service s with spec sp under layout L *)
 AdmissibleIn(L, s, sp, st) ==
-  /\ L # NOCFG /\ st # <<>> /\ sp.type = "LB" /\ sp.cips
+  /\ L # NOCFG /\ st # <<>> /\ sp.type = "LB" /\ sp.cips /\ ~sp.bad
   /\ \E p \in PoolsOf(L) : /\ \A a \in Range(st) : Usable(p, a)
                            /\ Compatible(p, s)
                            /\ (sp.reqPool # "" => p.name = sp.reqPool)
@@ -155,8 +155,18 @@ C06_Converges(o) == o.op = "Drained" => o.q
 ----------------------------------------------------------------------------
 (* C07 *)
 CanPlace(L, mem, s, sp) == \E x \in AllocateIPs(L, mem, s, sp) : x.ok
+(* who holds what according to the Service statuses (what a fresh controller would rebuild): the    *)
+(* admissible set of C07 is about addresses that are free or shareable in the cluster, not about the *)
+(* controller's private bookkeeping                                                                 *)
+MemFromApi(o) ==
+  LET a == Api(o) IN
+  [s \in SvcAll |->
+     IF a[s] # NULL /\ a[s].spec.type = "LB" /\ a[s].status # <<>>
+     THEN [pool |-> a[s].ann, ips |-> a[s].status, ports |-> a[s].spec.ports,
+           sk |-> a[s].spec.share, bk |-> BackendKey(a[s].spec)]
+     ELSE NULL]
 C07_NoStarvation(o) ==
-  o.q => LET a == Api(o)  m == Mem(o) IN
+  o.q => LET a == Api(o)  m == MemFromApi(o) IN
          \A s \in LBs(a) :
             (a[s].spec.cips /\ ~(a[s].spec.pol = "R" /\ a[s].spec.fam # "dual") /\ a[s].status = <<>>)
                => ~CanPlace(o.ctl, m, s, a[s].spec)
@@ -182,7 +192,8 @@ Fails(k) ==
   (IF C06_NoTheft(o) THEN {} ELSE {"C06.NoTheft"}) \cup
   (IF C06_Converges(o) THEN {} ELSE {"C06.Converges"}) \cup
   (IF C07_NoStarvation(o) THEN {} ELSE {"C07.NoStarvation"}) \cup
-  (IF C11_NoGhost(o) THEN {} ELSE {"C11.NoGhost"})
+  (IF C11_NoGhost(o) THEN {} ELSE {"C11.NoGhost"}) \cup
+  (IF o.panic = "" THEN {} ELSE {"C01.Panic", "C11.Panic"})
 
 Init == i = 1
 Next == i < N /\ i' = i + 1
